@@ -13,7 +13,7 @@ PROPS["C10"] = dict(
     title="Broadcast queue: no silent loss, exactly-once completion, bounded retransmits",
     pkg="./props/c10",
     level="exploration",
-    rule=("rapid-generated sequences (0-40 ops) of QueueBroadcast(named incl. empty name / unique / plain with Invalidates) / "
+    rule=("rapid-generated sequences (0-40 ops) of QueueBroadcast(named incl. empty name / unique / plain with Invalidates) / a backlog of 40-300 broadcasts queued at once (so that the ordered structure behind the queue has more than one node; Prune then retains up to 100) / "
           "GetBroadcasts(overhead 0-3, limit 0-300 or unbounded) / Prune / Reset / NumQueued / change of NumNodes, "
           "RetransmitMult 0-4, started from a zero-value queue, compared after every step with a list-based reference "
           "model (NumQueued, Finished() count per broadcast, exact selection by pointer identity, size budget, one per name) "
@@ -24,14 +24,14 @@ PROPS["C10"] = dict(
           "items coexisting, or Prune/Reset called; distinct = distinct operation sequences (hash of the plan)"),
     tests=[
         dict(name="model", run="^TestQueueModel$",
-             quick=dict(shards=8, checks=15000, timeout=300),
+             quick=dict(shards=8, checks=12000, timeout=900),
              thorough=dict(shards=16, checks=400000, timeout=1800)),
         dict(name="conc", run="^TestQueueConcurrent$", quick=dict(shards=2, checks=150, timeout=600), thorough=dict(shards=4, checks=6000, timeout=1800)),
         dict(name="conc-race", run="^TestQueueConcurrent$", race=True, quick=dict(shards=2, checks=40, timeout=900), thorough=dict(shards=4, checks=1500, timeout=1800)),
     ],
     required_labels=dict(both=["TestQueueModel/enqueue-after-reinsert", "TestQueueModel/equal-length-coexist",
                                "TestQueueModel/prune", "TestQueueModel/reset", "TestQueueModel/emptied-by-get",
-                               "TestQueueModel/hook:requeue", "TestQueueModel/hook:reset", "TestQueueModel/hook:prune"]),
+                               "TestQueueModel/hook:requeue", "TestQueueModel/hook:reset", "TestQueueModel/hook:prune", "TestQueueModel/backlog>=64"]),
     assumptions=COMMON_ASSUMPTIONS + [
         "identity of returned messages is established by the backing-array pointer of Message() (the queue returns the slices it was given)",
         "a zero-length message whose overhead exactly exhausts the limit may or may not be returned (both readings of 'fits' accepted)",
@@ -208,7 +208,7 @@ PROPS["C07"] = dict(
           "silent subjects), local UpdateNode and a Leave at the end or in the middle (the node keeps running); one claim in nine is about the node itself, also after it has left; (b) 3-6 real nodes under loss up to 50%, delay, cut streams, crashes, restarts, leaves and "
           "updates. At every quiescent point (after each step / every 500 virtual ms, synctest.Wait returned) the oracle replays the node's event log: callbacks "
           "never overlapped, per member join (update)* leave, and the replayed set equals Members() by name with the metadata and address of the last "
-          "join/update event. The same oracle also runs at the end of every C03/C04/C05 cluster case. non-trivial = history with a leave followed by a re-join, "
+          "join/update event. The same oracle also runs at the end of every C03/C04/C05 cluster case; both kinds of history also run under the race detector. non-trivial = history with a leave followed by a re-join, "
           "or an update event; distinct = distinct plans"),
     tests=[
         dict(name="log", run="^TestEventLog$",
@@ -217,6 +217,9 @@ PROPS["C07"] = dict(
         dict(name="logc", run="^TestEventLogCluster$",
              quick=dict(shards=8, checks=40, timeout=900),
              thorough=dict(shards=8, checks=1200, timeout=3400)),
+        # the same histories under the race detector: a membership transition that runs outside the node lock is reported even when no callback happened to overlap
+        dict(name="log-race", run="^TestEventLog$", race=True, quick=dict(shards=2, checks=60, timeout=900), thorough=dict(shards=3, checks=1500, timeout=3400)),
+        dict(name="logc-race", run="^TestEventLogCluster$", race=True, quick=dict(shards=2, checks=10, timeout=900), thorough=dict(shards=3, checks=300, timeout=3400)),
     ],
     required_labels=dict(both=["TestEventLog/claim-about-self", "TestEventLog/claim-about-self-after-leave"]),
     assumptions=PUPPET_ASSUMPTIONS + ["the event delegate cannot call Members() itself (it runs under the node lock), so faithfulness is checked at quiescent points"],
